@@ -43,6 +43,16 @@ func runC20Child(_ []string, _ *bufio.Writer, args []string) {
 		cfg["appender.a.type"], cfg["appender.a.fileDir"], cfg["appender.a.fileName"] = "File", dir, "a.log"
 		cfg["logger.lg.appenderRef.level"] = "info"
 		cfg["logger.lg.layout.type"] = map[bool]string{false: "TextLayout", true: "JSONLayout"}[lay]
+	case "filelogger": // the File LOGGER plugin (logger and appender in one)
+		delete(cfg, "logger.lg.appenderRef.ref")
+		cfg["appender.a.type"] = "Discard"
+		cfg["logger.lg.type"], cfg["logger.lg.fileDir"], cfg["logger.lg.fileName"] = "File", dir, "a.log"
+		cfg["logger.lg.layout.type"] = map[bool]string{false: "TextLayout", true: "JSONLayout"}[lay]
+	case "consolelogger": // the Console LOGGER plugin
+		delete(cfg, "logger.lg.appenderRef.ref")
+		cfg["appender.a.type"] = "Discard"
+		cfg["logger.lg.type"] = "Console"
+		cfg["logger.lg.layout.type"] = map[bool]string{false: "TextLayout", true: "JSONLayout"}[lay]
 	case "rollinglogger": // the RollingFile LOGGER plugin with its own layout, a lower bound and the warning split
 		delete(cfg, "logger.lg.appenderRef.ref")
 		cfg["appender.a.type"] = "Discard"
@@ -57,7 +67,7 @@ func runC20Child(_ []string, _ *bufio.Writer, args []string) {
 		pad, _ = strconv.Atoi(args[7])
 		cfg["bufferCap"] = args[8]
 	}
-	if lay && kind != "file-ll" && kind != "rollinglogger" {
+	if lay && kind != "file-ll" && kind != "rollinglogger" && kind != "filelogger" && kind != "consolelogger" {
 		cfg["appender.a.layout.type"] = "JSONLayout"
 	}
 	if err := log.Refresh(cfg); err != nil {
@@ -151,7 +161,7 @@ func runC20(cases []string, out *bufio.Writer, _ []string) {
 			var data []byte
 			ents, _ := os.ReadDir(dir)
 			for _, e := range ents {
-				if kind != "console" && e.Name() == "stdout.txt" {
+				if kind != "console" && kind != "consolelogger" && e.Name() == "stdout.txt" {
 					continue
 				}
 				b, _ := os.ReadFile(filepath.Join(dir, e.Name()))
